@@ -636,6 +636,9 @@ type Case struct {
 	// Bulk: the emit is wrapped in `for (bi, bv) in bulk { }` over a slice of this many elements, so that
 	// ONE render evaluates the path expression that many times (every evaluation must give the same leaf)
 	Bulk int `json:"bulk,omitempty"`
+	// Together (with Reexec): after the judged executions, the same parsed template is executed by one goroutine
+	// per entry at once, several rounds; every result must be the one that entry gave alone
+	Together bool `json:"together,omitempty"`
 
 	// Spell: how the leaves of this data set spell the root (default r / n / x): two data sets of one
 	// Reexec case that spell it differently have no leaf text in common
@@ -1637,6 +1640,49 @@ func checkCase(r *vk.Run, c Case) *vk.Fail {
 			f.Case = c
 			f.Msg = fmt.Sprintf("execution %d of %d of ONE parsed template (recipes / root forms %v): %s", i+1, len(c.Reexec), c.Reexec, f.Msg)
 			return f
+		}
+	}
+	if c.Together && pre.err == nil {
+		type outcome struct{ out, err string }
+		exec := func(e Exec) outcome {
+			k := c
+			k.Reexec, k.Variant, k.Ptr, k.Spell = nil, e.Variant, e.Ptr, e.Spell
+			res := vk.Safe(func() (string, error) { return pre.t.Exec(plush.NewContextWith(k.data())) })
+			if res.Panicked() {
+				return outcome{err: "PANIC " + fmt.Sprint(res.Panic)}
+			}
+			if res.Err != nil {
+				return outcome{err: res.Err.Error()}
+			}
+			return outcome{out: res.Out}
+		}
+		alone := make([]outcome, len(c.Reexec))
+		for i, e := range c.Reexec {
+			alone[i] = exec(e)
+		}
+		for round := 0; round < 6; round++ {
+			got := make([]outcome, len(c.Reexec))
+			var wg sync.WaitGroup
+			for i, e := range c.Reexec {
+				wg.Add(1)
+				go func(i int, e Exec) {
+					defer wg.Done()
+					got[i] = exec(e)
+				}(i, e)
+			}
+			wg.Wait()
+			for i := range got {
+				if got[i] != alone[i] {
+					g, a := got[i], alone[i]
+					if len(g.out) > 300 {
+						g.out = g.out[:300] + "..."
+					}
+					if len(a.out) > 300 {
+						a.out = a.out[:300] + "..."
+					}
+					return &vk.Fail{Kind: "path", Case: c, Msg: fmt.Sprintf("%s: ONE parsed template executed by %d goroutines at once (recipes / root forms %v): execution %d gave %+v, alone it gave %+v", c.template(), len(c.Reexec), c.Reexec, i+1, g, a)}
+				}
+			}
 		}
 	}
 	return nil
@@ -2978,6 +3024,10 @@ func TestProp(t *testing.T) {
 		{call("GetKids"), at(lit(1)), call("Greet", vr(key("x")))},
 	} {
 		fcases = append(fcases, Case{Fam: "node", Variant: i % 2, Ptr: i%2 == 1, Root: "n", Steps: steps, Bulk: 1100})
+		// and the same path, 300 evaluations per render, by eight goroutines at once on ONE parsed template, each with
+		// its own data (other recipe, other root form, leaves that spell the root differently)
+		fcases = append(fcases, Case{Fam: "node", Root: "n", Steps: steps, Bulk: 300, Together: true,
+			Reexec: []Exec{{0, false, ""}, {1, true, "o"}, {0, true, "p"}, {1, false, "q"}, {0, false, "s"}, {1, true, "t"}, {0, true, "u"}, {1, false, "w"}}})
 	}
 	r.Parallel(int64(len(fcases)), 0, func(i int64) { r.Check(checkCase(r, fcases[i])) })
 	r.Subspace(fmt.Sprintf("Node family: every sequence of 1-3 hops (.Kids[i] .Next .M[k] .Kid(i) .PKid(i) .GetKids()[i] .Any; %d+%d+%d sequences x 4 tails .Name .Hello() .Greet(s) .Echo(any)) and of 4 hops (%d; the quick tier takes every 12th), literal/variable pattern varying with the path, root and let names that are member names; x usages (emit once/twice, a let, a for at every index step) x 2 recipes", nhop[1]/4, nhop[2]/4, nhop[3]/4, nhop[4]), nHopCases, r.Thorough())
@@ -2986,7 +3036,7 @@ func TestProp(t *testing.T) {
 	r.Subspace("Node family: for every path of <= 3 hops, every variable argument and every member or method name that occurs earlier in the path: the variable is given that name", nRenCases, true)
 	r.Subspace("Node and Ext families: sweeps (as above) over the hop paths (quick: <= 2 hops) and the all-variable Ext walks of <= 3 steps", nSweepCases, r.Thorough())
 	r.Subspace("ONE parsed template executed 3-4 times against different data (recipe 0/1, root by value / by pointer, leaves that spell the root differently, the first again): hop paths of <= 3 hops (quick: every 2nd), Ext walks of <= 3 steps, completable Root walks of <= 3 steps (quick: every 3rd)", nReCases, r.Thorough())
-	r.Subspace("one render that evaluates an indexed / chained path 1100 times (state leaking from one evaluation to the next within a render)", int64(len(fcases))-nbulk0, true)
+	r.Subspace("one render that evaluates an indexed / chained path 1100 times (state leaking from one evaluation to the next within a render); the same paths 300 times per render by eight goroutines at once on one parsed template with different data (state leaking from one execution to another)", int64(len(fcases))-nbulk0, true)
 
 	if debug {
 		fmt.Printf("E phase done after %v\n", time.Since(t0))
